@@ -262,6 +262,63 @@ def d3(chk, prog):
                f"flatten() fast path tests {a_flat}; stated: start[1:] - end.cummax[:-1] >= 0", witness=dict(got=str(a_flat)))
 
 
+def d3b(chk, prog):
+    """soundness of the two fast paths on literal small tables: a table returned as it is has nothing left to merge / flatten"""
+    chk.clause("D3b", "merge / flatten fast paths are sound: a table returned unchanged has no rows of one chromosome left to merge (literal small tables, rows in any order)")
+    grid = [0, 4, 8, 12]
+    ivs = [(a, b) for a in grid for b in grid if a < b]
+    rows1 = [(c, s, e) for c in ("a", "b") for s, e in ivs]
+    tables = [list(t) for n in (1, 2, 3) for t in itertools.product(rows1, repeat=n)]
+
+    def mk(rows):
+        df = DF({"chromosome": Vec([r[0] for r in rows], aligned=True), "start": Vec([r[1] for r in rows], aligned=True), "end": Vec([r[2] for r in rows], aligned=True)}, len(rows))
+        df.exact = True
+        return df
+
+    def slow(it, obj, name, args, kw):
+        if isinstance(obj, DF) and name == "sort_values":
+            raise Raised("SlowPath")
+        return NotImplemented
+
+    for qn, bps, label in (("skgenome.merge.merge", (0, 2), "merge"), ("skgenome.merge.flatten", (None,), "flatten")):
+        fi = prog.fn(qn)
+        tb = Table(chk, "fast-path", f"{label}: table returned unchanged => no two rows of one chromosome overlap"
+                   + (" or lie within bp of each other" if label == "merge" else "") + f" ({len(tables)} literal tables of 1-3 rows on 2 chromosomes" + (", bp 0 and 2)" if label == "merge" else ")"), fi.loc(), fi.qn)
+        bad, undecided, fast = [], [], 0
+        for rows in tables:
+            for bp in bps:
+                W.reset()
+                model = Model()
+                model.method_hooks.append(slow)
+                it = Interp(prog, model)
+                df = mk(rows)
+                try:
+                    out = it.run(qn, [df] + ([bp] if bp is not None else []))
+                except Raised as r:
+                    if r.exc_name == "SlowPath":
+                        continue
+                    undecided.append(f"{rows} bp={bp}: raises {r}")
+                    continue
+                except Undecided as u:
+                    undecided.append(f"{rows} bp={bp}: {u}")
+                    continue
+                if out is not df:
+                    undecided.append(f"{rows} bp={bp}: returned another object without sorting")
+                    continue
+                fast += 1
+                if label == "merge":
+                    clash = [(r, q) for i, r in enumerate(rows) for q in rows[i + 1:] if r[0] == q[0] and q[1] - r[2] <= -bp and r[1] - q[2] <= -bp]
+                else:
+                    clash = [(r, q) for i, r in enumerate(rows) for q in rows[i + 1:] if r[0] == q[0] and q[1] < r[2] and r[1] < q[2]]
+                if clash:
+                    bad.append(dict(table=rows, bp=bp, rows_left_unmerged=clash[0]))
+        if undecided:
+            raise AnalysisError(f"C06-D3b {label}: {len(undecided)} tables undecided, e.g. {undecided[0][:200]}")
+        chk.floor(f"{label} fast path taken on literal tables", fast, 10)
+        tb.cell(not bad, dict(tables=len(tables) * len(bps), fast_path_taken=fast, counterexamples=bad[:3], n_counterexamples=len(bad)))
+        tb.done(f"{label}() returns some tables unchanged although rows of one chromosome still overlap" + (" / abut" if label == "merge" else ""))
+
+
 # ---------------------------------------------------------------------------------------------- D4
 def d4(chk, prog):
     chk.clause("D4", "resize_ranges: start=max(start-bp,0), end=max(end+bp,0) (min chromosome size), rows with end-start<=0 dropped when shrinking, on a copy")
@@ -273,7 +330,7 @@ def d4(chk, prog):
         s0, e0, s1, e1 = Term.sym("s0", 0, INF, True), Term.sym("e0", 0, INF, True), Term.sym("s1", 0, INF, True), Term.sym("e1", 0, INF, True)
         bp = OrderVal("bp", {"neg": -7, "zero": 0, "pos": 7}[bp_pos], [0])
         rows = [{"chromosome": "chr1", "start": s0, "end": e0, "gene": "a"}, {"chromosome": "chr2", "start": s1, "end": e1, "gene": "b"}]
-        g = make_ga("GenomicArray", rows, {})
+        g = make_ga("GenomicArray", rows, {}, index="any")       # merged / filtered tables keep permuted or partial labels
         L1, L2 = Term.sym("L1", 0, INF, True), Term.sym("L2", 0, INF, True)
         cs = {"chr1": L1, "chr2": L2} if sizes else None
         asked = []
@@ -458,6 +515,7 @@ def run(chk):
     chk.assume("exact arithmetic over the rationals")
     d1(chk, prog)
     d2(chk, prog)
+    d3b(chk, prog)
     d3(chk, prog)
     d4(chk, prog)
     spans = [(1000, 300, 0), (1000, 3000, 0), (100, 300, 0), (449, 300, 0), (450, 300, 0), (751, 300, 0), (1500, 300, 0), (1800, 300, 0),
@@ -469,6 +527,18 @@ def run(chk):
 
 _M = "skgenome/merge.py"
 MUTANTS = [
+    dict(name="seeded C06c: merge fast path per chromosome, chromosome changes masked", file="skgenome/merge.py", old="""    gap_sizes = table.start.values[1:] - table.end.cummax().values[:-1]
+    if (gap_sizes > -bp).all():
+        return table
+    if stranded:""", new="""    chroms = table.chromosome.values
+    far_ends = table.groupby("chromosome", sort=False)["end"].cummax().values
+    gap_sizes = table.start.values[1:] - far_ends[:-1]
+    if (gap_sizes[chroms[1:] == chroms[:-1]] > -bp).all():
+        return table
+    if stranded:"""),
+    dict(name="flatten fast path ignores the last row", file="skgenome/merge.py", old="    if (table.start.values[1:] >= table.end.cummax().values[:-1]).all():", new="    if (table.start.values[1:-1] >= table.end.cummax().values[:-2]).all():"),
+    dict(name="seeded C06d: chromosome sizes looked up into a fresh-index Series", file="skgenome/gary.py", old='            limits["upper"] = self.chromosome.map(chrom_sizes)\n', new='            sizes = pd.Series(chrom_sizes)\n            limits["upper"] = sizes[self.chromosome].reset_index(drop=True)\n'),
+    dict(name="twin: chromosome sizes looked up into a plain array", expect="silent", file="skgenome/gary.py", old='            limits["upper"] = self.chromosome.map(chrom_sizes)\n', new='            sizes = pd.Series(chrom_sizes)\n            limits["upper"] = sizes[self.chromosome].values\n'),
     dict(name="regress: subtract without merging the subtrahend", file="skgenome/subtract.py", old="    other = merge(other)\n", new=""),
     dict(name="regress: list passed to combiner slot", file=_M, old="key: combine[key](pd.Series([getattr(r, key) for r in rows_in_play]))", new="key: combine[key]([getattr(r, key) for r in rows_in_play])"),
     dict(name="merge fast path >= instead of >", file=_M, old="    if (gap_sizes > -bp).all():\n        return table\n    if stranded", new="    if (gap_sizes >= -bp).all():\n        return table\n    if stranded"),
